@@ -24,6 +24,7 @@ class Generated:
         self.rule_counts = {}
         self.fn_props = {}  # fn name -> (props, auto)
         self.sidecars = {}
+        self.stubs = []
 
     def add(self, text, origin, tags):
         for ln in text.split('\n'):
@@ -51,6 +52,61 @@ def find_src_line(repo, module, name):
                     return f'{os.path.relpath(c, repo)}:{k} (duplicate_item row)'
             return os.path.relpath(c, repo)
     return None
+
+
+def load_sidecar(unit, fn_name):
+    """raw sidecar lines of `fn_name` as defined (by //@fn or //@twin) in units/<unit>.vrs"""
+    path = os.path.join(VERIF, 'units', unit + '.vrs')
+    src = open(path).read().split('\n')
+    found = {}
+    i = 0
+    while i < len(src):
+        s = src[i].strip()
+        if s.startswith('//@fn '):
+            name = s[6:].split()[1]
+            j = i + 1
+            body = []
+            while j < len(src) and src[j].strip() != '//@end':
+                body.append(src[j])
+                j += 1
+            found[name] = body
+            i = j
+        elif s.startswith('//@twin '):
+            parts = s[8:].split(None, 2)
+            opts = parts[2] if len(parts) > 2 else ''
+            m_of = re.search(r'\bof=(\w+)', opts)
+            if m_of and m_of.group(1) in found:
+                body = list(found[m_of.group(1)])
+                subs = re.findall(r'sub=/((?:[^/\\]|\\.)*)/=>(\S*)', opts)
+                subs.append((r'\b' + m_of.group(1) + r'\b', parts[1]))
+                for pat, rep in subs:
+                    body = [re.sub(pat, rep, ln2) for ln2 in body]
+                found[parts[1]] = body
+        i += 1
+    if fn_name not in found:
+        raise ExtractionError(f'//@stub: `{fn_name}` is not defined in unit {unit}')
+    body = found[fn_name]
+    for bl in body:
+        if bl.strip().startswith('//@sig-of '):
+            other = bl.strip().split()[1]
+            return ['//@sig'] + [re.sub(r'\bfn ' + re.escape(other) + r'\b', 'fn ' + fn_name, l3) for l3 in sig_of(load_sidecar(unit, other))]
+    return body
+
+
+def sig_of(body):
+    """the //@sig block of a sidecar (without region tags)"""
+    out = []
+    on = False
+    for ln in body:
+        s = ln.strip()
+        if s.startswith('//@'):
+            on = s.startswith('//@sig')
+            continue
+        if on:
+            if s.startswith('//#'):
+                continue
+            out.append(re.sub(r'//#.*$', '', ln).rstrip())
+    return out
 
 
 def process_template(path, crate, repo, gen=None, depth=0):
@@ -95,6 +151,17 @@ def process_template(path, crate, repo, gen=None, depth=0):
                 gen.add(extra, f'{rel}:{i+1}', tags)
             gen.add(txt, f'/repo {module}::{a[1]}', tags)
             gen.rule_counts['D1'] = gen.rule_counts.get('D1', 0) + 1
+        elif kw == 'stub':
+            # //@stub <unit> <fn> [as=<name>] : the contract PROVED for <fn> in unit <unit>, as an external_body declaration
+            a = arg.split()
+            body = load_sidecar(a[0], a[1])
+            sig = sig_of(body)
+            new_name = next((o[3:] for o in a[2:] if o.startswith('as=')), a[1])
+            sig = [re.sub(r'\bfn ' + re.escape(a[1]) + r'\b', 'fn ' + new_name, ln2) for ln2 in sig]
+            gen.add('#[verifier::external_body]', f'{rel}:{i+1}', tags)
+            gen.add('\n'.join(sig), f'contract of {a[0]}::{a[1]} (proved in unit {a[0]})', tags)
+            gen.add('{ unimplemented!() }', f'{rel}:{i+1}', tags)
+            gen.stubs.append({'unit': a[0], 'fn': a[1], 'as': new_name})
         elif kw == 'expect-fail':
             gen.expect_fail.update(arg.split())
         elif kw in ('fn', 'twin'):
@@ -120,10 +187,23 @@ def process_template(path, crate, repo, gen=None, depth=0):
                 body = [ln2 for ln2 in body]
                 for pat, rep in subs:
                     body = [re.sub(pat, rep, ln2) for ln2 in body]
+                sidecars[parts[1]] = body
                 extra = ' '.join(o for o in opts.split() if o.startswith(('auto=', 'props=', 'impl=', 'as=')))
                 arg = parts[0] + ' ' + parts[1] + (' ' + extra if extra else '')
                 j = i
             # region tags inside the sidecar: resolved after weaving (they travel with the text as comments)
+            nb = []
+            for bl in body:
+                if bl.strip().startswith('//@sig-of '):
+                    other = bl.strip().split()[1]
+                    if other not in sidecars:
+                        raise ExtractionError(f'{rel}:{i+1}: //@sig-of {other}: unknown function')
+                    this = arg.split()[1]
+                    nb.append('//@sig')
+                    nb.extend(re.sub(r'\bfn ' + re.escape(other) + r'\b', 'fn ' + this, l3) for l3 in sig_of(sidecars[other]))
+                else:
+                    nb.append(bl)
+            body = nb
             sc = X.Sidecar(arg, body, f'{rel}:{i+1}')
             fn = crate.find_fn(sc.module, sc.name, sc.impl_re)
             log = X.RuleLog()
